@@ -3,7 +3,12 @@
 // Contracts for package ipfslog (log.go, log_io.go), checked by /verif (govc). Comment-only.
 package ipfslog
 
-import "berty.tech/go-ipfs-log/iface"
+import (
+	"berty.tech/go-ipfs-log/identityprovider"
+	"berty.tech/go-ipfs-log/iface"
+)
+
+var _ *identityprovider.Identity
 
 // ---- vocabulary ----
 // om(m): the concrete ordered map behind an interface value (closed world: *entry.OrderedMap is the only implementation)
@@ -336,10 +341,12 @@ func verifLemmaTraversalComplete(E iface.IPFSLogOrderedEntries, H iface.IPFSLogO
 //@   lockrequires noLocksHeld()
 //@   ensures result != nil && fresh(result) && result.ID == l.ID && len(result.Heads) == len(om(l.heads).keys)
 //@   ensures [published-heads-are-heads-of-the-log] forall i int :: 0 <= i && i < len(result.Heads) ==> exists k string :: has(om(l.heads).values, k) && result.Heads[i] == om(l.heads).values[k].Hash
+//@ @load ensures [every-head-of-the-log-is-published] forall k string :: has(om(l.heads).values, k) ==> exists i int :: 0 <= i && i < len(result.Heads) && result.Heads[i] == om(l.heads).values[k].Hash
 //@   loop 0
 //@     invariant len(hashes) == $k && off(hashes) == 0 && (hashes == nil || fresh(hashes)) && validSlice(stack)
 //@     invariant forall i int :: 0 <= i && i < len(stack) ==> exists k string :: has(om(l.heads).values, k) && stack[i] == om(l.heads).values[k]
 //@     invariant forall i int :: 0 <= i && i < $k ==> hashes[i] == stack[i].Hash
+//@ @load invariant [every-head-is-on-the-sorted-stack] forall k string :: has(om(l.heads).values, k) ==> exists i int :: 0 <= i && i < len(stack) && stack[i] == om(l.heads).values[k]
 
 //@ func (*IPFSLog).SetIdentity
 //@   requires logInv(l) && identity != nil && identity.Provider != nil && identity.Signatures != nil
@@ -487,12 +494,19 @@ func verifLemmaSourceConnected(o *IPFSLog, A iface.IPFSLogOrderedEntries) {
 //@   ensures [new-log-blocks-are-stored] err == nil && options != nil && old(options.Entries) != nil && (forall k string :: has(om(old(options.Entries)).values, k) ==> stored[om(old(options.Entries)).values[k].Hash]) && (forall i int :: 0 <= i && i < old(len(options.Heads)) ==> stored[old(options.Heads[i]).Hash]) && old(len(options.Heads)) > 0 ==> storedLog(result0)
 //@   ensures [new-log-holds-the-given-entries] err == nil && options != nil && old(options.Entries) != nil ==> forall k string :: has(om(result0.Entries).values, k) == has(om(old(options.Entries)).values, k) && (has(om(old(options.Entries)).values, k) ==> om(result0.Entries).values[k] == om(old(options.Entries)).values[k])
 //@ @wf ensures [new-empty-log-is-well-formed] err == nil && (options == nil || (old(options.Entries) == nil && old(len(options.Heads)) == 0)) ==> wfLog(result0) && headsExact(result0) && len(om(result0.Entries).keys) == 0
+//@ @load assert "next := entry.NewOrderedMap()" [computed-heads-are-unreferenced-entries] old(len(options.Heads)) == 0 && old(options.Entries) != nil ==> forall i int :: 0 <= i && i < len(options.Heads) ==> validEntry(options.Heads[i]) && has(omv(options.Entries), ehash(options.Heads[i])) && notNamedIn(options.Entries, ehash(options.Heads[i]))
+//@ @load assert "next := entry.NewOrderedMap()" [every-unreferenced-entry-is-a-computed-head] old(len(options.Heads)) == 0 && old(options.Entries) != nil ==> forall k string :: has(omv(options.Entries), k) ==> (exists r int :: 0 <= r && r < len(options.Heads) && options.Heads[r] == omv(options.Entries)[k]) || namedIn(options.Entries, k)
+//@ @load ensures [new-log-keeps-a-given-id] err == nil && options != nil && old(options.ID) != "" ==> result0.ID == old(options.ID)
+//@ @load ensures [new-log-with-given-heads-has-exactly-those-heads] err == nil && options != nil && old(len(options.Heads)) > 0 ==> forall k string :: has(hds(result0), k) <==> (exists i int :: 0 <= i && i < old(len(options.Heads)) && old(options.Heads[i]) != nil && ehash(old(options.Heads[i])) == k)
+//@ @load ensures [new-log-without-given-heads-takes-the-unreferenced-entries] err == nil && options != nil && old(len(options.Heads)) == 0 && old(options.Entries) != nil ==> (forall k string :: has(hds(result0), k) ==> has(ent(result0), k) && notNamedIn(result0.Entries, k)) && (forall k string :: has(ent(result0), k) ==> has(hds(result0), k) || namedIn(result0.Entries, k))
 //@   lockensures err == nil ==> held[result0.lock] == 0
 //@   loop 0
 //@     invariant isOM(next)
 //@     invariant fresh(next) && fresh(om(next).values) && freshKeys(om(next))
 //@     invariant options != nil && validEntries(options.Entries)
 //@ @wf invariant len(om(options.Entries).keys) == 0 ==> len(om(next).keys) == 0
+//@ @load invariant [computed-heads-are-unreferenced-entries] old(len(options.Heads)) == 0 && old(options.Entries) != nil ==> forall i int :: 0 <= i && i < len(options.Heads) ==> validEntry(options.Heads[i]) && has(omv(options.Entries), ehash(options.Heads[i])) && notNamedIn(options.Entries, ehash(options.Heads[i]))
+//@ @load invariant [every-unreferenced-entry-is-a-computed-head] old(len(options.Heads)) == 0 && old(options.Entries) != nil ==> forall k string :: has(omv(options.Entries), k) ==> (exists r int :: 0 <= r && r < len(options.Heads) && options.Heads[r] == omv(options.Entries)[k]) || namedIn(options.Entries, k)
 //@     lockinvariant held[om(next).lock] == 0
 //@     loopmodifies om(next).keys, mapof(om(next).values)
 //@   loop 1
@@ -622,27 +636,49 @@ func verifLemmaSourceConnected(o *IPFSLog, A iface.IPFSLogOrderedEntries) {
 //@   ensures [in-range-slice] 0 <= from && from < to && to <= len(entries) ==> result == entries[from:to]
 //@   ensures from >= len(entries) || (0 <= from && 0 <= to && from >= to) ==> len(result) == 0
 
+// the (ghost) arguments and result of the last call of the assumed fetcher, typed
+//@ define fetchRoots() = lastFetchRoots.([]cid.Cid)
+//@ define fetched() = lastFetch.([]iface.IPFSLogEntry)
 //@ func fromEntryHash
 //@   requires options == nil || (options.SortFn == nil || true)
 //@   requires validAnyIO(io)
 //@   ensures services == nil || options == nil ==> err != nil
+//@ @load modifies lastFetch, lastFetchRoots, lastFetchLimit
+//@ @load ensures [unbounded-entry-hash-load-fetches-without-limit-from-the-given-hashes] err == nil ==> lastFetchRoots == hashes && (noLimit(options.Length) ==> lastFetchLimit < 0)
+//@ @load ensures [unbounded-entry-hash-load-returns-the-whole-fetch-result] err == nil && noLimit(options.Length) ==> result0 == lastFetch
 //@   ensures [entry-hash-load-respects-the-limit] err == nil && options.Length != nil && deref(options.Length) >= 0 ==> len(result0) <= max(deref(options.Length), 1)
 //@   ensures err == nil ==> validSlice(result0)
 
 //@ func fromMultihash
 //@   requires options != nil && validAnyIO(io) && services != nil
+//@ @load modifies lastFetch, lastFetchRoots, lastFetchLimit
+//@ @load ensures [unbounded-manifest-load-fetches-without-limit] err == nil && noLimit(options.Length) ==> lastFetchLimit < 0
+//@ @load ensures [unbounded-manifest-load-returns-the-whole-fetch-result] err == nil && noLimit(options.Length) ==> result0.Values == lastFetch
+//@ @load ensures [manifest-load-fetches-from-the-published-heads-and-reports-those-it-got] err == nil ==> forall i int :: 0 <= i && i < len(result0.Heads) ==> (exists r int :: 0 <= r && r < len(fetchRoots()) && fetchRoots()[r] == result0.Heads[i]) && (exists v int :: 0 <= v && v < len(result0.Values) && result0.Values[v].Hash == result0.Heads[i])
+//@ @load ensures [every-fetched-published-head-is-reported] err == nil ==> forall r int, v int :: 0 <= r && r < len(fetchRoots()) && 0 <= v && v < len(result0.Values) && str(fetchRoots()[r]) == ehash(result0.Values[v]) ==> exists i int :: 0 <= i && i < len(result0.Heads) && result0.Heads[i] == result0.Values[v].Hash
 //@   ensures [manifest-load-respects-the-limit] err == nil && options.Length != nil && deref(options.Length) >= 0 ==> len(result0.Values) <= deref(options.Length)
 //@   ensures err == nil ==> result0 != nil && validSlice(result0.Values)
 //@   replay loadlimit
 //@   loop 0
 //@     invariant validSlice(entries) && (heads == nil || fresh(heads)) && logHeads != nil
+//@ @load invariant off(heads) == 0 && logHeads.Heads == lastFetchRoots
+//@ @load invariant [reported-heads-are-published-and-fetched] forall i int :: 0 <= i && i < len(heads) ==> (exists r int :: 0 <= r && r < len(fetchRoots()) && fetchRoots()[r] == heads[i]) && (exists v int :: 0 <= v && v < $k && entries[v].Hash == heads[i])
+//@ @load invariant [fetched-published-heads-seen-so-far-are-reported] forall r int, v int :: 0 <= r && r < len(fetchRoots()) && 0 <= v && v < $k && str(fetchRoots()[r]) == ehash(entries[v]) ==> exists i int :: 0 <= i && i < len(heads) && heads[i] == entries[v].Hash
 //@   loop 1
 //@     invariant validSlice(entries) && (heads == nil || fresh(heads)) && logHeads != nil && validEntry(e)
+//@ @load invariant off(heads) == 0 && logHeads.Heads == lastFetchRoots && e == entries[$k0]
+//@ @load invariant [reported-heads-are-published-and-fetched] forall i int :: 0 <= i && i < len(heads) ==> (exists r int :: 0 <= r && r < len(fetchRoots()) && fetchRoots()[r] == heads[i]) && ((exists v int :: 0 <= v && v < $k0 && entries[v].Hash == heads[i]) || heads[i] == e.Hash)
+//@ @load invariant [fetched-published-heads-seen-so-far-are-reported] forall r int, v int :: 0 <= r && r < len(fetchRoots()) && 0 <= v && v < $k0 && str(fetchRoots()[r]) == ehash(entries[v]) ==> exists i int :: 0 <= i && i < len(heads) && heads[i] == entries[v].Hash
+//@ @load invariant [published-heads-compared-so-far-with-the-current-entry-are-reported] forall r int :: 0 <= r && r < $k && str(fetchRoots()[r]) == ehash(e) ==> exists i int :: 0 <= i && i < len(heads) && heads[i] == e.Hash
 
 //@ func fromJSON
 //@   requires options == nil || options.IO == nil || validAnyIO(options.IO)
 //@   requires jsonLog != nil
 //@   ensures services == nil || options == nil ==> err != nil
+//@ @load modifies lastFetch, lastFetchRoots, lastFetchLimit
+//@ @load ensures [unbounded-json-load-fetches-without-limit-from-the-given-heads] err == nil ==> lastFetchRoots == jsonLog.Heads && (noLimit(options.Length) ==> lastFetchLimit < 0)
+//@ @load ensures [unbounded-json-load-returns-the-whole-fetch-result] err == nil && noLimit(options.Length) ==> result0.Values == lastFetch
+//@ @load ensures [json-load-keeps-id-and-heads] err == nil ==> result0.ID == jsonLog.ID && result0.Heads == jsonLog.Heads
 //@   ensures [json-load-respects-the-limit] err == nil && options.Length != nil && deref(options.Length) >= 0 ==> len(result0.Values) <= deref(options.Length)
 //@   ensures err == nil ==> result0 != nil && validSlice(result0.Values)
 //@   replay loadlimit
@@ -658,6 +694,57 @@ func verifLemmaSourceConnected(o *IPFSLog, A iface.IPFSLogOrderedEntries) {
 //@   assert "result = append(result, others...)" [supplied-entries-survive-the-append] forall i int :: 0 <= i && i < len(sourceEntries) ==> exists p int :: 0 <= p && p < len(result) && ehash(result[p]) == ehash(sourceEntries[i])
 //@   loop 0
 //@     invariant len(hashes) == $k && (hashes == nil || fresh(hashes))
+
+// ---- C09 (facet load): what the loaders build from a fetch result ----
+// sameKeysAsSlice(m, s): the entry index holds exactly the hashes of the entries in s
+//@ define holdsExactly(m iface.IPFSLogOrderedEntries, s []iface.IPFSLogEntry) = (forall i int :: 0 <= i && i < len(s) ==> has(omv(m), ehash(s[i]))) && (forall k string :: has(omv(m), k) ==> exists i int :: 0 <= i && i < len(s) && ehash(s[i]) == k)
+//@ define unreferencedAreHeads(r *IPFSLog) = (forall k string :: has(hds(r), k) ==> has(ent(r), k) && notNamedIn(r.Entries, k)) && (forall k string :: has(ent(r), k) ==> has(hds(r), k) || namedIn(r.Entries, k))
+//@ define validIdentity(identity *identityprovider.Identity) = identity == nil || (identity.Provider != nil && identity.Signatures != nil)
+
+//@ func NewFromJSON
+//@   requires validIdentity(identity) && jsonLog != nil
+//@   requires logOptions == nil || ((logOptions.IO == nil || validAnyIO(logOptions.IO)) && (logOptions.Clock == nil || validClock(logOptions.Clock)))
+//@   requires fetchOptions == nil || fetchOptions.IO == nil || validAnyIO(fetchOptions.IO)
+//@   modifies fields(logOptions), fields(fetchOptions)
+//@ @load modifies lastFetch, lastFetchRoots, lastFetchLimit
+//@   ensures logOptions == nil || fetchOptions == nil ==> err != nil
+//@   ensures err == nil ==> result0 != nil && fresh(result0) && logInv(result0)
+//@ @load ensures [json-rebuild-fetches-from-the-given-heads-without-limit] err == nil ==> lastFetchRoots == jsonLog.Heads && (noLimit(old(fetchOptions.Length)) ==> lastFetchLimit < 0)
+//@ @load ensures [json-rebuild-holds-exactly-the-fetched-entries] err == nil && noLimit(old(fetchOptions.Length)) ==> holdsExactly(result0.Entries, fetched())
+//@ @load ensures [json-rebuild-keeps-the-published-id] err == nil && jsonLog.ID != "" ==> result0.ID == jsonLog.ID
+//@ @load ensures [json-rebuild-heads-are-the-unreferenced-entries] err == nil ==> unreferencedAreHeads(result0)
+
+//@ func NewFromMultihash
+//@   requires validIdentity(identity)
+//@   requires logOptions == nil || ((logOptions.IO == nil || validAnyIO(logOptions.IO)) && (logOptions.Clock == nil || validClock(logOptions.Clock)))
+//@   modifies fields(logOptions)
+//@ @load modifies lastFetch, lastFetchRoots, lastFetchLimit
+//@   ensures services == nil || identity == nil || logOptions == nil || fetchOptions == nil ==> err != nil
+//@   ensures err == nil ==> result0 != nil && fresh(result0) && logInv(result0)
+//@ @load ensures [manifest-rebuild-fetches-without-limit] err == nil && noLimit(fetchOptions.Length) ==> lastFetchLimit < 0
+//@ @load ensures [manifest-rebuild-holds-exactly-the-fetched-entries] err == nil && noLimit(fetchOptions.Length) ==> holdsExactly(result0.Entries, fetched())
+//@ @load ensures [manifest-rebuild-heads-are-entries] err == nil ==> forall k string :: has(hds(result0), k) ==> has(ent(result0), k)
+//@ @load ensures [manifest-rebuild-heads-are-the-fetched-published-heads] err == nil && (exists r int :: 0 <= r && r < len(fetchRoots()) && has(ent(result0), str(fetchRoots()[r]))) ==> forall k string :: has(hds(result0), k) <==> has(ent(result0), k) && (exists r int :: 0 <= r && r < len(fetchRoots()) && str(fetchRoots()[r]) == k)
+//@   loop 0
+//@     invariant heads == nil || fresh(heads)
+//@     invariant off(heads) == 0 && isOM(entries) && data != nil && validSlice(data.Values) && validSlice(heads) && logOptions.IO != nil && validAnyIO(logOptions.IO)
+//@ @load invariant holdsExactly(entries, data.Values) && (noLimit(fetchOptions.Length) ==> data.Values == lastFetch && lastFetchLimit < 0)
+//@ @load invariant [published-heads-are-the-fetch-roots-that-were-fetched] (forall i int :: 0 <= i && i < len(data.Heads) ==> (exists r int :: 0 <= r && r < len(fetchRoots()) && fetchRoots()[r] == data.Heads[i]) && (exists v int :: 0 <= v && v < len(data.Values) && data.Values[v].Hash == data.Heads[i])) && (forall r int, v int :: 0 <= r && r < len(fetchRoots()) && 0 <= v && v < len(data.Values) && str(fetchRoots()[r]) == ehash(data.Values[v]) ==> exists i int :: 0 <= i && i < len(data.Heads) && data.Heads[i] == data.Values[v].Hash)
+//@     invariant forall j int :: 0 <= j && j < len(heads) ==> heads[j] != nil && validEntry(heads[j]) && has(omv(entries), ehash(heads[j])) && omv(entries)[ehash(heads[j])] == heads[j]
+//@ @load invariant [collected-heads-are-published] forall j int :: 0 <= j && j < len(heads) ==> exists i int :: 0 <= i && i < $k && str($r[i]) == ehash(heads[j])
+//@ @load invariant [published-heads-seen-so-far-are-collected] forall i int :: 0 <= i && i < $k && has(omv(entries), str($r[i])) ==> exists j int :: 0 <= j && j < len(heads) && ehash(heads[j]) == str($r[i])
+
+//@ func NewFromEntryHash
+//@   requires validIdentity(identity)
+//@   requires logOptions == nil || ((logOptions.IO == nil || validAnyIO(logOptions.IO)) && (logOptions.Clock == nil || validClock(logOptions.Clock)))
+//@   modifies fields(logOptions)
+//@ @load modifies lastFetch, lastFetchRoots, lastFetchLimit
+//@   ensures logOptions == nil || fetchOptions == nil ==> err != nil
+//@   ensures err == nil ==> result0 != nil && fresh(result0) && logInv(result0)
+//@ @load ensures [entry-hash-rebuild-fetches-from-the-given-hash-without-limit] err == nil ==> len(fetchRoots()) == 1 && fetchRoots()[0] == hash && (noLimit(fetchOptions.Length) ==> lastFetchLimit < 0)
+//@ @load ensures [entry-hash-rebuild-holds-exactly-the-fetched-entries] err == nil && noLimit(fetchOptions.Length) ==> holdsExactly(result0.Entries, fetched())
+//@ @load ensures [entry-hash-rebuild-keeps-the-requested-id] err == nil && old(logOptions.ID) != "" ==> result0.ID == old(logOptions.ID)
+//@ @load ensures [entry-hash-rebuild-heads-are-the-unreferenced-entries] err == nil ==> unreferencedAreHeads(result0)
 
 // ---- C01: convergence (facet wf) ----
 // Join's contract says: the entries after an unbounded merge are the UNION of both entry sets, and the heads are exactly
